@@ -1348,6 +1348,11 @@ int QSexact_verify (
           * this is only done to get approximate primal and dual solution corresponding to the given basis 
           */
          p_dbl = QScopy_prob_mpq_dbl(p_mpq, "dbl_problem");
+         if( !p_dbl )
+         {
+            rval = 1;
+            goto CLEANUP;
+         }
    
          dbl_QSload_basis(p_dbl, basis);
          rval = dbl_ILLeditor_solve(p_dbl, DUAL_SIMPLEX);
@@ -1497,6 +1502,12 @@ int QSexact_solver (mpq_QSdata * p_mpq,
 		QSlog("Trying double precision");
 	}
 	p_dbl = QScopy_prob_mpq_dbl (p_mpq, "dbl_problem");
+	if (!p_dbl)
+	{
+		QSlog("QSexact_solver: could not create the double precision copy");
+		rval = 1;
+		goto CLEANUP;
+	}
 	if(__QS_SB_VERB <= DEBUG) p_dbl->simplex_display = 1;
 	if (ebasis && ebasis->nstruct)
 		dbl_QSload_basis (p_dbl, ebasis);
@@ -1641,6 +1652,12 @@ int QSexact_solver (mpq_QSdata * p_mpq,
 			QSlog("Trying mpf with %u bits", precision);
 		}
 		p_mpf = QScopy_prob_mpq_mpf (p_mpq, "mpf_problem");
+		if (!p_mpf)
+		{
+			QSlog("QSexact_solver: could not create the %u bit copy", precision);
+			rval = 1;
+			goto CLEANUP;
+		}
 		if(DEBUG >= __QS_SB_VERB)
 		{
 			EGcallD(mpf_QSwrite_prob(p_mpf, "qsxprob.mpf.lp","LP"));
